@@ -257,7 +257,8 @@ inline std::vector<Op> alphabet(int n, int m, bool small = false)
       if(!small) add(OP_CHGROW, i, 0, -INF, 0, 0);
       for(double v : SINGLES_LO) add(OP_CHGLHS, i, 0, v, 0, 0);
       for(double v : SINGLES_UP) add(OP_CHGRHS, i, 0, v, 0, 0);
-      for(int p = 0; p < (small ? 3 : NPAIRS); ++p) add(OP_CHGRANGE, i, 0, PAIRS[p][0], PAIRS[p][1], 0);
+      // the reduced alphabet keeps a one-sided, the other one-sided and a NON-ZERO equality range ({2,2}: scaling must not show)
+      for(int p = 0; p < NPAIRS; ++p) if(!small || p == 0 || p == 1 || p == 5) add(OP_CHGRANGE, i, 0, PAIRS[p][0], PAIRS[p][1], 0);
       add(OP_RMROW, i, 0, 0, 0, 0);
       for(int j : ci) { add(OP_CHGELEM, i, j, 2, 0, 0); add(OP_CHGELEM, i, j, 0, 0, 0); if(!small) add(OP_CHGELEM, i, j, -1, 0, 0); }
    }
@@ -286,7 +287,7 @@ inline std::vector<Op> alphabet(int n, int m, bool small = false)
       if(!small) add(OP_CHGCOL, j, 1, 0, INF, 0);
       for(double v : SINGLES_LO) add(OP_CHGLOWER, j, 0, v, 0, 0);
       for(double v : SINGLES_UP) add(OP_CHGUPPER, j, 0, v, 0, 0);
-      for(int p = 0; p < (small ? 3 : NPAIRS); ++p) add(OP_CHGBOUNDS, j, 0, PAIRS[p][0], PAIRS[p][1], 0);
+      for(int p = 0; p < NPAIRS; ++p) if(!small || p == 0 || p == 1 || p == 5) add(OP_CHGBOUNDS, j, 0, PAIRS[p][0], PAIRS[p][1], 0);
       for(double v : OBJV) add(OP_CHGOBJ, j, 0, v, 0, 0);
       add(OP_RMCOL, j, 0, 0, 0, 0);
    }
